@@ -16,7 +16,14 @@ Inductive case :=
          (impl_calls : list (list peer)) (impl_excluded_ok : bool)
          (impl_announced impl_run : option (list peer))
 | Wait (keys : list N) (holders : list peer) (self : peer) (msgs : list wmsg)
-       (impl_outs : list wout) (impl_other_error : bool).
+       (impl_outs : list wout) (impl_other_error : bool)
+(* the retried attempt after a retryable failure of the first one; [c2] = the coordinator of the
+   retried attempt as the scripted bully election determines it (a scripted earlier candidate that
+   announced itself, or this relayer when nobody answered) *)
+| RetryWait (keys : list N) (holders : list peer) (self c2 : peer) (msgs : list wmsg)
+            (impl_outs : list wout) (impl_other_error : bool)
+| RetryCoord (keys : list N) (holders : list peer) (t : Z) (excluded : list peer) (self : peer)
+             (evs : list (bool * peer)) (impl_run : option (list peer)) (impl_aborted impl_other_error : bool).
 
 Definition opt_peer_eqb (a b : option peer) : bool :=
   match a, b with
@@ -81,6 +88,11 @@ Definition agree (c : case) : bool :=
       | None => false
       | Some c => negb (N.eqb c self) && wouts_eqb (snd (run_wait (Some c) Waiting msgs)) outs && negb other
       end
+  | RetryWait keys holders self c2 msgs outs other =>
+      negb (N.eqb c2 self) && wouts_eqb (snd (retry_wait c2 msgs)) outs && negb other
+  | RetryCoord keys holders t excluded self evs run aborted other =>
+      let m := retry_coord (key_of keys) holders t excluded self evs in
+      opt_list_eqb (fst m) run && Bool.eqb (snd m) aborted && negb other
   end.
 
 Definition judge (c : case) : bool :=
@@ -107,6 +119,10 @@ Definition judge (c : case) : bool :=
       | None => true
       | Some c => outs_justified c msgs outs
       end
+  | RetryWait keys holders self c2 msgs outs other => outs_justified c2 msgs outs
+  | RetryCoord keys holders t excluded self evs run aborted other =>
+      if negb (memb self holders) || memb self excluded then true
+      else retry_coord_ok holders t excluded self evs run aborted
   end.
 
 Definition tag (c : case) : N :=
@@ -124,6 +140,12 @@ Definition tag (c : case) : N :=
           ((match st with Waiting => 21 | Running => 22 | Finished => 23 end)
            + (if existsb (fun o => match o with OAbort => true | _ => false end) outs then 3 else 0))%N
       end
+  | RetryWait keys holders self c2 msgs _ _ =>
+      ((match fst (retry_wait c2 msgs) with Waiting => 30 | Running => 31 | Finished => 32 end)
+       + (if existsb (fun m => match m with MFail f => negb (N.eqb f c2) | _ => false end) msgs then 4 else 0))%N
+  | RetryCoord keys holders t excluded self evs _ _ _ =>
+      ((match fst (retry_coord (key_of keys) holders t excluded self evs) with Some _ => 41 | None => 40 end)
+       + (match ev_fails evs with [] => 0 | _ => 4 end))%N
   end.
 
 Definition check_all := check_cases agree judge tag.
